@@ -21,7 +21,7 @@ from z3 import And, Array, BoolVal, ForAll, Function, If, Implies, Int, IntSort,
 
 from vf import bounded as B
 from vf import prims as P
-from vf.common import mk_scores, new_exec, run_function
+from vf.common import multi_path_meta, mk_scores, new_exec, run_function
 from vf.engine import Axis, Obj, Oblig, Path, T, same_size, toB, toI, toR
 from vf.proof import prove
 
@@ -78,7 +78,7 @@ def build_rule_of_three():
     ci = T((N, Axis("2", 2)), lambda i, b: P.sel([L[toI(i)], U[toI(i)]], b), prov="param:ci")
     outs = run_function(ex, "roc_curve", "_apply_rule_of_three", [], {"p": p, "ci": ci, "alpha": alpha, "n": n}, path=path)
     ok = len(outs) == 1 and not outs[0].raised and isinstance(outs[0].value, T) and outs[0].value.ndim == 2 and outs[0].value.axes[1].size == 2
-    obs.append(Oblig("C16/rule_of_three/returns-(n,2)-array", [], BoolVal(bool(ok)), "shape", ("C16",)))
+    obs.append(Oblig("C16/rule_of_three/returns-(n,2)-array", [], BoolVal(bool(ok)), "shape", ("C16",), multi_path_meta(outs)))
     if not ok:
         return obs
     r, hy = outs[0].value, outs[0].path.pc
@@ -143,7 +143,7 @@ def build_call_sites():
         tag = f"[{fname}]"
         outs = run_function(ex, mod, fname, [me], {"alpha": alpha, "config": cfg, "nb_points": 7}, path=path)
         ok = len(outs) == 1 and not outs[0].raised and isinstance(outs[0].value, Obj) and outs[0].value.cls == "ROCCurve"
-        obs.append(Oblig(f"C16/call_sites/returns-ROCCurve{tag}", [], BoolVal(bool(ok)), "shape", ("C16",)))
+        obs.append(Oblig(f"C16/call_sites/returns-ROCCurve{tag}", [], BoolVal(bool(ok)), "shape", ("C16",), multi_path_meta(outs)))
         if not ok:
             continue
         c = outs[0].value
@@ -182,7 +182,7 @@ def build_envelope():
     dyp = T((Axis("pts", n), Axis("2", 2)), lambda i, b: DY(toI(i), toI(b)), prov="param:dyp")
     outs = run_function(ex, "roc_curve", "_aggregate_rectangles", [x, dxp, dyp], {}, path=path)
     ok = len(outs) == 1 and not outs[0].raised and isinstance(outs[0].value, T) and outs[0].value.ndim == 2 and outs[0].value.axes[1].size == 2 and same_size(outs[0].value.axes[0].size, n)
-    obs.append(Oblig("C16/envelope/returns-(n,2)-array", [], BoolVal(bool(ok)), "shape", ("C16",)))
+    obs.append(Oblig("C16/envelope/returns-(n,2)-array", [], BoolVal(bool(ok)), "shape", ("C16",), multi_path_meta(outs)))
     if not ok:
         return obs
     ml = getattr(ex, "map_last", None)
